@@ -314,6 +314,10 @@ class P:
             e = self.if_expr()
             self.eat(";")
             return ("expr", e, self.at("}") and not self.t[self.i - 1][1] == ";")
+        if v == "match":
+            e = self.primary(False)
+            self.eat(";")
+            return ("expr", e, False)
         if v in ("assert_eq!", "debug_assert_eq!"):
             self.next()
             self.expect("(")
@@ -346,6 +350,14 @@ class P:
         if self.at("}"):
             return ("expr", e, True)     # tail expression
         raise Untranslatable("unexpected token %r after expression" % self.peek()[1])
+
+    def arm_stmt(self):
+        """a match arm without braces: `return e` or an expression"""
+        if self.at("return"):
+            self.next()
+            e = None if self.at(",") or self.at("}") else self.expr()
+            return ("return", e)
+        return ("expr", self.expr(), True)
 
     def if_expr(self):
         self.expect("if")
@@ -512,6 +524,57 @@ class P:
         if k == "str":
             self.next()
             return ("str", v)
+        if v == "|":
+            # closure: |a: T, b: T| -> R { body }  (only called directly; inlined by the emitter)
+            self.next()
+            ps = []
+            while not self.at("|"):
+                self.eat("mut")
+                pn = self.next()[1]
+                pt = None
+                if self.eat(":"):
+                    pt = self.ty()
+                ps.append((pn, pt))
+                self.eat(",")
+            self.expect("|")
+            rt = None
+            if self.eat("->"):
+                rt = self.ty()
+            body = self.block() if self.at("{") else [("expr", self.expr(), True)]
+            return ("closure", ps, rt, body)
+        if v == "match":
+            self.next()
+            scrut = self.expr(nostruct=True)
+            self.expect("{")
+            some_names, some_body, none_body = None, None, None
+            while not self.at("}"):
+                if self.eat("Some"):
+                    self.expect("(")
+                    names = []
+                    if self.eat("("):
+                        while not self.at(")"):
+                            self.eat("mut")
+                            names.append(self.next()[1])
+                            self.eat(",")
+                        self.expect(")")
+                        tup = True
+                    else:
+                        names.append(self.next()[1])
+                        tup = False
+                    self.expect(")")
+                    self.expect("=>")
+                    some_names = (names, tup)
+                    some_body = self.block() if self.at("{") else [self.arm_stmt()]
+                elif self.eat("None"):
+                    self.expect("=>")
+                    none_body = self.block() if self.at("{") else [self.arm_stmt()]
+                else:
+                    raise Untranslatable("match arm %r (only Some(..) / None)" % self.peek()[1])
+                self.eat(",")
+            self.expect("}")
+            if some_body is None or none_body is None:
+                raise Untranslatable("match without both Some and None arms")
+            return ("matchopt", scrut, some_names, some_body, none_body)
         if k == "id" or v == "self":
             self.next()
             path = [v]
